@@ -25,6 +25,7 @@ def stream_cases(pid, seed, tier, *, record=None, K=(12, 24), monitor=1.0, fly=0
         specs[d].setdefault("async", {})["pause"] = rng.choice([0.0, 0.05, 0.3])
     pg = gen.PlanGen(rng, specs)
     pg.nonrewind = rng.choice([0.0, 0.0, 0.4])  # some data points are taken with rewinding switched off
+    pg.monitor_opts = 0.4  # some 'monitor' messages carry options for obj.subscribe()
     S = pg.S
     body = []
     nruns = rng.choice([1, 1, 2])
